@@ -133,7 +133,12 @@ def main(argv):
             print('replay file names no input: %s' % data.get('what'))
             return 1
     else:
-        inputs = load_corpus(pid) + list(mod.generate(tier, rng))
+        inputs = load_corpus(pid)
+        try:
+            inputs = inputs + list(mod.generate(tier, rng))
+        except Exception as e:
+            problems.append({'kind': 'correspondence', 'what': 'the case generator failed: %r' % (e,),
+                             'detail': traceback.format_exc()[-3000:]})
     outs, codes, err = [], [], None
     try:
         outs, codes, err = evaluate(mod, inputs)
